@@ -107,6 +107,9 @@ func (e *Engine) c15Direct(which string, role string, name string, f *ssa.Functi
 			}
 			hit := false
 			for _, g := range e.callees(c) {
+				if g == ft.getter {
+					continue // the locked read of the failure error itself
+				}
 				if gr[g] {
 					hit = true
 					what = "call:" + e.fname(g)
